@@ -40,7 +40,7 @@ def run(ctx):
         print("VIOLATION property=C19 replay=%s" % p)
         print("  the Go race detector reported %d data race(s) in library code during shared read-only use / disjoint-window writes" % len(races))
         viol += 1
-    ctx.note("recorded shared: %d concurrent phases, %d events, race reports: %d" % (st["extra"].get("concurrent_phases", 0), st["events"], len(races)))
+    ctx.note("recorded shared: %d concurrent phases, %d events, race reports: %d" % (st.get("extra", {}).get("concurrent_phases", 0), st["events"], len(races)))
     mm, tot = validate_files(ctx, "SignalTrace", sf.TRACE_CFG, st["files"])
     ctx.note("validated %d events (%d judged) against the sequential outcome, %d mismatches" % (tot["lines"], tot["judged"], len(mm)))
     for n, m in enumerate(mm[:20]):
@@ -60,7 +60,7 @@ def run(ctx):
     cov = dict(states=mc["distinct"], transitions=mc["generated"], traces_validated_against_impl=st["traces"], samples=samples,
                evaluations=tot["lines"], events_judged=tot["judged"], distinct_nontrivial=st["cases"],
                rule="each trace is one concurrent phase (up to 16 goroutines: readers on one shared read-only window through every read-only entry point, writers on disjoint Slice windows) run under the race detector; per-call results and the final contents of every view are compared with the sequential outcome computed by Signal.tla",
-               race_detector_reports=len(races), concurrent_phases=st["extra"].get("concurrent_phases", 0), ops=st["ops"],
+               race_detector_reports=len(races), concurrent_phases=st.get("extra", {}).get("concurrent_phases", 0), ops=st["ops"],
                model=dict(module="Shared", params=dict(ch=ch, ro_frames=ro, w_frames=wf, readers=rs, writers=ws), depth=mc["depth"], exhaustive=True, hazard_config_violates_RaceFree=True),
                exhaustive=False)
     write_evidence(ctx, "model_checking", cov,
